@@ -55,10 +55,11 @@ const (
 	CRamp
 	COneBit
 	CSmall // every 16-byte block is a small integer (1..255)
+	COne   // every 16-byte block is the integer 1: the batch sum is the plain sum of the scalars
 	nContent
 )
 
-var contentNames = []string{"uniform", "zero", "ones", "repeat16", "sparse", "ramp", "onebit", "small"}
+var contentNames = []string{"uniform", "zero", "ones", "repeat16", "sparse", "ramp", "onebit", "small", "one"}
 
 // ReadFault describes one Read call of the device (by index; stalls do not
 // advance the index).
@@ -146,6 +147,11 @@ func (d *Device) contentByte(k int) byte {
 		pos := int(d.plan.CSeed % (16 * 8 * 70))
 		if k == pos/8 {
 			return 1 << uint(pos%8)
+		}
+		return 0
+	case COne:
+		if k%16 == 0 {
+			return 1
 		}
 		return 0
 	case CSmall:
